@@ -246,7 +246,40 @@ func c15Pipeline(r *fw.Rand, depth int) string {
 	}
 	if r.Chance(1, 4) {
 		// variables, sometimes undefined / self-referential / mutually recursive
-		switch r.Intn(9) {
+		switch r.Intn(12) {
+		case 9, 10, 11:
+			// a handful of variables that are other names for each other, for a
+			// pipeline or for themselves, defined in any order (before or after
+			// they are used), with the result taken from any of them: chains,
+			// cycles, chains that lead into a cycle they are not part of
+			n := r.Range(1, 5)
+			names := []string{"People", "Everyone", "Living", "A", "B"}[:n]
+			var stmts []string
+			for k, v := range names {
+				target := names[r.Intn(n)]
+				var def string
+				switch r.Intn(6) {
+				case 0:
+					def = []string{".Individuals", ".Families", qs}[r.Intn(3)]
+				case 1:
+					def = target + " | " + []string{"Only(.IsLiving)", "Length", ".Name", "First(2)", qs}[r.Intn(5)]
+				default:
+					def = target // nothing but another name
+				}
+				_ = k
+				stmts = append(stmts, v+" "+[]string{"is", "are"}[r.Intn(2)]+" "+def)
+			}
+			perm := r.Perm(len(stmts))
+			var ordered []string
+			for _, pi := range perm {
+				ordered = append(ordered, stmts[pi])
+			}
+			final := names[r.Intn(n)]
+			if r.Chance(1, 3) {
+				final += " | " + []string{"Length", ".Name | .String", "Only(.IsLiving)"}[r.Intn(3)]
+			}
+			// the use may come first: "Living are People | Only(.IsLiving); People are Everyone; ..."
+			qs = strings.Join(ordered, "; ") + "; " + final
 		case 5: // the variable refers to itself inside the argument of a function
 			fn := []string{"Only", "First", "Last", "Combine", "NodesWithTagPath", "MergeDocumentsAndIndividuals"}[r.Intn(6)]
 			base := []string{".Individuals", "Document1 | .Individuals", ".Families", ".Nodes", qs}[r.Intn(5)]
